@@ -7,7 +7,7 @@ import SciVerif.Tie.Pins
 /-! Tie A obligations for C10 on the current source. -/
 namespace SciVerif.Tie
 -- functions the model relies on without an obligation of its own naming them (pinned by bin/mkpins):
--- PIN-ALSO: Scipipe.FileIP_AuditInfo Scipipe.FileIP_SetAuditInfo Scipipe.UnmarshalAuditInfoJSONFile Scipipe.NewAuditInfo Scipipe.FileIP_Tags Scipipe.FileIP_Tag Scipipe.FileIP_Param Scipipe.NewBaseIP Scipipe.randSeqLC
+-- PIN-ALSO: Scipipe.FileIP_AuditInfo Scipipe.FileIP_SetAuditInfo Scipipe.UnmarshalAuditInfoJSONFile Scipipe.NewAuditInfo Scipipe.FileIP_Tags Scipipe.FileIP_Tag Scipipe.FileIP_Param Scipipe.NewBaseIP Scipipe.randSeqLC Scipipe.FileIP_AddTag Scipipe.Task_Audit Scipipe.Task_Auditf
 open SciVerif.Generated
 
 /-- `writeAuditLogs` fills every field of the record, keys Upstream by input path (sub-stream
@@ -85,6 +85,7 @@ theorem generated_tags_copied :
 
 
 
+
 -- BEGIN PINS (written by bin/mkpins; do not edit by hand)
 /-- the Go functions this property's model and obligations were written against have exactly the
 pinned skeletons (SHA-256 prefix of the atom list) -/
@@ -105,6 +106,8 @@ theorem pinned_skeletons_c10 :
      ("Scipipe.NewAuditInfo", "e3a18a6fa50d658d"),
      ("Scipipe.NewBaseIP", "df4327cd0ddbcbbb"),
      ("Scipipe.NewTask", "95298f03c320cb96"),
+     ("Scipipe.Task_Audit", "394f07db7cf58ac1"),
+     ("Scipipe.Task_Auditf", "e3b0c44298fc1c14"),
      ("Scipipe.Task_Execute", "40fd1fec0c69deb2"),
      ("Scipipe.Task_executeCommand", "98e77d849c0638cb"),
      ("Scipipe.Task_writeAuditLogs", "5ee6e36ed2566be6"),
